@@ -12,18 +12,18 @@ Ev == T[l]
 
 PC(r) == [st |-> r.st, smiu |-> r.smiu, swin |-> r.swin, peer |-> r.peer, res |-> r.res]
 PA(r) == [st |-> r.st, peer |-> r.peer, smiu |-> r.smiu, swin |-> r.swin]
-PW(w) == [i \in DOMAIN w |-> [t |-> w[i].t, d |-> w[i].d, s |-> w[i].s, reason |-> w[i].reason]]
+PW(w) == [i \in DOMAIN w |-> [t |-> w[i].t, d |-> w[i].d, s |-> w[i].s, reason |-> w[i].reason, sn |-> w[i].sn]]
 Proj == [cl |-> [c \in Clients |-> PC(cl'[c])], nrq |-> Len(lst'.rq), acc |-> [i \in DOMAIN acc' |-> PA(acc'[i])],
          ab |-> PW(ab'), ba |-> PW(ba')]
 
 TInit == /\ tid \in 1..Len(Traces) /\ l = 1
          /\ cl = [c \in Clients |-> [st |-> "CLOSED", rmiu |-> C.cl[c].rmiu, rw |-> C.cl[c].rw, smiu |-> 128, swin |-> 0,
-                                     peer |-> 0, res |-> "-"]]
+                                     peer |-> 0, res |-> "-", how |-> "-"]]
          /\ lst = [st |-> IF ListenerPresent THEN "LISTEN" ELSE "NONE", rmiu |-> C.lrmiu, rw |-> C.lrw, rq |-> <<>>]
          /\ acc = <<>> /\ ab = <<>> /\ ba = <<>> /\ nacc = 0 /\ lost = FALSE
 Step == l <= Len(T) /\ l' = l + 1 /\ UNCHANGED tid
 Is(a) == l <= Len(T) /\ Ev.a = a
-Guarded == \/ Is("Connect") /\ Step /\ Connect(Ev.c)
+Guarded == \/ Is("Connect") /\ Step /\ Ev.how \in Hows /\ Connect(Ev.c, Ev.how)
            \/ Is("DeliverA") /\ Step /\ DeliverA
            \/ Is("DeliverB") /\ Step /\ DeliverB
            \/ Is("Accept") /\ Step /\ Accept
